@@ -171,9 +171,9 @@ def entries():
                 "decltype(xtl::masked_value(%s))" % arg(T, fac), ["xtl::xmasked_value<%s, bool>" % ct])
             for flabel, ffac, fc, flv in E_CATS:
                 cb = rule_closure("bool", fc, flv)[0]
-                add("optional(%s %s, bool %s)" % (short(T), label, flabel), "optional(v,flag)", "value:%s,flag:%s" % (label, flabel), "optional",
+                add("optional(%s %s, bool %s)" % (short(T), label, flabel), "optional(v,flag)", "value:%s,flag:%s" % (label, "lvalue" if flv else "rvalue"), "optional",
                     "decltype(xtl::optional(%s, %s))" % (arg(T, fac), arg("bool", ffac)), ["xtl::xoptional<%s, %s>" % (ct, cb)])
-                add("masked_value(%s %s, bool %s)" % (short(T), label, flabel), "masked_value(v,flag)", "value:%s,flag:%s" % (label, flabel), "masked",
+                add("masked_value(%s %s, bool %s)" % (short(T), label, flabel), "masked_value(v,flag)", "value:%s,flag:%s" % (label, "lvalue" if flv else "rvalue"), "masked",
                     "decltype(xtl::masked_value(%s, %s))" % (arg(T, fac), arg("bool", ffac)), ["xtl::xmasked_value<%s, %s>" % (ct, cb)])
 
     # forward_sequence<R, A>(s): the argument itself when the types match, an owning R otherwise
@@ -278,6 +278,14 @@ def entries():
         add("&%s on W&" % W, "xproxy_wrapper_impl::operator&", "W&", "proxy", "decltype(&%s)" % wrap_obj(W, "lv"), ["xtl::xclosure_pointer<%s&>" % T])
         add("&%s on W&&" % W, "xproxy_wrapper_impl::operator&", "W&&", "proxy", "decltype(&%s)" % wrap_obj(W, "xv"), ["xtl::xclosure_pointer<%s>" % T])
 
+    # ---- G: capability probes: same-type assignment between reference-closure wrappers --------
+    # (committed as ill-formed on the pinned tree: the implicitly deleted copy assignment operator wins overload resolution; the
+    #  dynamic harness therefore assigns through these wrappers from values / value wrappers only)
+    for W, hdr in (("xtl::xoptional<int&, bool&>", "optional"), ("xtl::xmasked_value<int&, bool&>", "masked"),
+                   ("xtl::xcomplex<double&, double&, false>", "complex"), ("xtl::xclosure_pointer<int&>", "closure")):
+        add("%s = same type" % W, "same-type-assignment", W.split("<")[0].replace("xtl::", ""), hdr,
+            "decltype(%s = %s)" % (wrap_obj(W, "lv"), wrap_obj(W, "lv")), [W + "&"])
+
     ids = set()
     for e in out:
         assert e.id not in ids, e.id
@@ -303,6 +311,9 @@ def known_ill_formed():
     for T in ("int", "Counted", "int*"):
         k["const_closure(%s const T&&)" % T] = (ALL_STD, why_const)
         k["const_closure_pointer(%s const T&&)" % T] = (ALL_STD, why_const)
+    why_assign = "the wrapper has reference members, its implicitly declared copy assignment operator is deleted and is selected for an argument of the same type"
+    for W in ("xtl::xoptional<int&, bool&>", "xtl::xmasked_value<int&, bool&>", "xtl::xcomplex<double&, double&, false>", "xtl::xclosure_pointer<int&>"):
+        k["%s = same type" % W] = (ALL_STD, why_assign)
     return k
 
 
